@@ -442,7 +442,7 @@ class ModelInputArrayBijector:
       )
 
     if spec.scale == pyvizier.ScaleType.LOG:
-      if low < 0 or high < 0:
+      if low <= 0 or high <= 0:
         raise ValueError(
             'Log scale requires both parameter boundaries to be positive,'
             f' though low bound is {low} and high bound is {high}.'
@@ -454,6 +454,11 @@ class ModelInputArrayBijector:
       scale_fn = lambda x, low=low, denom=denom: (np.log(x) - low) / denom
       unscale_fn = lambda x, low=low, denom=denom: np.exp(x * denom + low)
     elif spec.scale == pyvizier.ScaleType.REVERSE_LOG:
+      if low <= 0 or high <= 0:
+        raise ValueError(
+            'Reverse log scale requires both parameter boundaries to be'
+            f' positive, though low bound is {low} and high bound is {high}.'
+        )
       raw_sum = low + high
       low, high = np.log(low), np.log(high)
       denom = (high - low) or 1.0
